@@ -22,7 +22,7 @@ OPS = ["concat0", "concat1", "like", "padded", "nonzero", "where", "subset", "ma
 FLOOR_TAGS = ["op:" + o for o in OPS] + ["ends:none", "ends:inside", "ends:negative", "ends:beyond", "where:xy", "where:xs", "mask:allfalse", "mask:alltrue",
                                          "operand:norows", "operand:allempty", "side:left", "side:right", "recv:fresh", "recv:lazyrows", "recv:lazycols+2", "starts:none"]
 FLOOR_MONITORS = ["c08:compare", "inv:ragged"]
-N_RANDOM = {"quick": 10000, "thorough": 400000}
+N_RANDOM = {"quick": 30000, "thorough": 400000}
 
 
 def setup(lib):
